@@ -41,18 +41,28 @@ structure Obs where
   rename : Bool
   /-- the identifier was assigned by the writer in this pass (it had none before) -/
   assigned : Bool
+  /-- wire indices of a cable that is written wire by wire (several wires, or an array); `[]` otherwise -/
+  bits : List Nat := []
   deriving Repr
+
+/-- identifier of one wire of a bus as the writer forms it: `<identifier>_<index>_` -/
+def wireIdent (id : List Char) (i : Nat) : List Char := id ++ '_' :: (toString i).toList ++ ['_']
+
+/-- every identifier the file contains for an element: its own, and one per wire of a bus -/
+def emitted (o : Obs) : List (List Char) := o.ident :: o.bits.map (wireIdent o.ident)
 
 /-- all ways to write `l = pre ++ x :: post` -/
 def splits {α : Type} : List α → List (List α × α × List α)
   | [] => []
   | x :: xs => ([], x, xs) :: (splits xs).map (fun (p, y, q) => (x :: p, y, q))
 
-/-- P for one element in its scope: identifier legal; differs, ignoring case, from the name and the
-    identifier of every sibling; a changed name is flagged as a rename. -/
+/-- P for one element in its scope: identifier legal; every identifier written for it differs,
+    ignoring case, from the name and from every written identifier of every sibling; a changed name
+    is flagged as a rename. -/
 def elemOk (pre : List Obs) (x : Obs) (post : List Obs) : Bool :=
   checkEdifIdentifier x.ident &&
-  (pre ++ post).all (fun y => !ciEq x.ident y.name && !ciEq x.ident y.ident) &&
+  (pre ++ post).all (fun y =>
+    (emitted x).all fun m => !ciEq m y.name && (emitted y).all fun m' => !ciEq m m') &&
   (x.ident == x.name || x.rename)
 
 /-- P for one namespace scope: every element the writer named is `elemOk`. -/
@@ -63,5 +73,14 @@ def scopeOk (obs : List Obs) : Bool :=
 def identsDistinct : List Obs → Bool
   | [] => true
   | x :: xs => xs.all (fun y => !ciEq x.ident y.ident) && identsDistinct xs
+
+/-- the net identifiers the cables of one cell put into the file -/
+def netIdents (obs : List Obs) : List (List Char) :=
+  obs.flatMap fun o => if o.bits.isEmpty then [o.ident] else o.bits.map (wireIdent o.ident)
+
+/-- pairwise different ignoring case -/
+def allDistinct : List (List Char) → Bool
+  | [] => true
+  | x :: xs => xs.all (fun y => !ciEq x y) && allDistinct xs
 
 end Spydr.Names.Spec
